@@ -1768,7 +1768,7 @@ Proof. intros es H. destruct (file_acceptance_parts es H) as [l [_ Hc]]. now exi
    the specification for its declaration *)
 Theorem file_full_modulo_reserved : forall es, file_quantifier es = true ->
   exists l, compile_file es = Ok (concat l)
-            /\ Forall2 (fun e cs => compile e = Ok cs /\ C17_spec e cs) es l.
+            /\ Forall2 (fun e cs => compile e = Ok cs /\ C17_spec_all e cs) es l.
 Proof.
   intros es H. destruct (file_acceptance_parts es H) as [l [HF Hc]]. exists l. split; [exact Hc|].
   assert (Hall : forall e, In e es -> in_quantifier e = true /\ reserved_free e = true).
@@ -1777,7 +1777,7 @@ Proof.
     rewrite forallb_forall in H. specialize (H e He). now apply andb_true_iff in H. }
   clear H Hc. induction HF as [|e cs es l Hcv _ IH]; [constructor|]. constructor.
   - destruct (Hall e (or_introl eq_refl)) as [Hq Hr].
-    destruct (full_modulo_reserved e Hq Hr) as [cs' [Hc' Hs']].
+    destruct (full_all_clauses e Hq Hr) as [cs' [Hc' Hs']].
     destruct (compile_inv e cs' Hc') as [_ [Hcv' _]]. rewrite Hcv in Hcv'. inversion Hcv'; subst cs'. split; assumption.
   - apply IH. intros e' He'. apply Hall. now right.
 Qed.
